@@ -149,7 +149,28 @@ def run_transducer(init, table, s):
     return st, out
 
 
-def literal_chars(f, fname, depth=2, seen=None):
+NARROWING = "<narrowing-cast>"
+
+
+def widen_for_narrowing(chars):
+    """a function that narrows a code point (`c as u8`) can confuse a character with any other that has the same low
+    bits: for every collected character the alphabet also gets characters that agree with it in the low 8 and low 16 bits"""
+    chars = set(chars)
+    if NARROWING not in chars:
+        return chars
+    chars.discard(NARROWING)
+    for c in sorted(chars):
+        o = ord(c)
+        for hi in (0x100, 0x4E00, 0x10000, 0x1F600 & ~0xFF):
+            v = (hi & ~0xFF) | (o & 0xFF)
+            if v < 0x110000 and not (0xD800 <= v <= 0xDFFF):
+                chars.add(chr(v))
+        if o < 0x10000:
+            chars.add(chr(0x10000 | o))
+    return chars
+
+
+def _literal_chars(f, fname, depth=2, seen=None):
     """every character the behaviour of a function can depend on: char / str / byte / byte-string literals (expressions
     and patterns), integer literals that can be code points (a function that compares `c as u32` with 0x5C, or looks `c`
     up in a table), in the function, in the named constants it mentions and in the crate functions it calls"""
@@ -175,18 +196,24 @@ def literal_chars(f, fname, depth=2, seen=None):
             if v > 0:
                 out.add(chr(v - 1))         # `code < 0x80`: both sides of a boundary
     for n in walk(body):
+        if n.get("k") == "cast" and (f.ty(n.get("ty")) or "") in ("u8", "i8", "u16", "i16"):
+            out.add(NARROWING)          # marker: the behaviour may depend on the low bits of a code point only
         if n.get("k") == "lit":
             add_lit(n.get("lit"))
         for key in ("lit", "lo", "hi"):
             if isinstance(n.get(key), dict) and n.get("k") != "lit":
                 add_lit(n[key])
         if depth > 0 and n.get("k") == "path" and "Const" in (n.get("dk") or "") and n.get("def") in f.fns:
-            out |= literal_chars(f, n["def"], depth - 1, seen)
+            out |= _literal_chars(f, n["def"], depth - 1, seen)
         if depth > 0 and n.get("k") in ("call", "mcall"):
             for d in (n.get("callee"), H.callee(n)):
                 if d and d in f.fns and d.startswith("crate::"):
-                    out |= literal_chars(f, d, depth - 1, seen)
+                    out |= _literal_chars(f, d, depth - 1, seen)
     return out
+
+
+def literal_chars(f, fname, depth=2, seen=None):
+    return widen_for_narrowing(_literal_chars(f, fname, depth, seen))
 
 
 OTHER_REPS = ["a", "Z", "0", " ", "%", "\u00e9", "\u8868", "\U0001f600"]
